@@ -13,7 +13,7 @@ from .c02 import upd, Invalid
 
 ID = 'C16'
 TITLE = '!append / !extend / !prev'
-RULE = ('base config (nested mappings, lists, lists of lists) and 1-3 later stages each holding 1-3 operators at pairwise unrelated paths '
+RULE = ('base config (nested mappings with string and integer keys, lists, lists of lists) and 1-3 later stages each holding 1-3 operators at pairwise unrelated paths '
         '(top level, nested in mappings, !prev sources also inside lists; !append/!extend targets inside lists only in a dedicated class), '
         'targets existing / missing / non-list, !prev destinations fresh or holding a scalar, plus untouched or plainly overridden sibling '
         'content; non-trivial = an operator at depth >=1 or addressing into a list, or >=2 operators in the history; distinct = hash of the case')
@@ -21,7 +21,7 @@ BUDGET = {'quick': (4, 600), 'thorough': (16, 10000)}
 ASSUMPTIONS = ['!append in the very first document is not generated (statement: fails; fixture: plain list)',
                '!prev destinations hold nothing or a scalar (a mapping moved onto a mapping merges key-wise by the ordinary rules)']
 
-KEYS = ['a', 'b', 'c', 'l', '_p']
+KEYS = ['a', 'b', 'c', 'l', '_p', 1, 7]       # integer keys too: a path component that is an int need not be a list index
 LEAF = st.one_of(st.integers(0, 9), st.sampled_from(['s', 't', 2.5, None, True, 0, False, '', 0.0]))
 
 
@@ -73,6 +73,21 @@ def path_str(path):
     return out
 
 
+def through_list(cur, path):
+    """True iff some component of the path indexes into a list of the plain config `cur` (missing tails count as mapping keys)."""
+    node = cur
+    for c in path:
+        if isinstance(node, list):
+            if not (isinstance(c, int) and -len(node) <= c < len(node)):
+                return True
+            return True
+        if isinstance(node, dict) and c in node:
+            node = node[c]
+        else:
+            return False
+    return False
+
+
 def _related(p, q):
     n = min(len(p), len(q))
     return p[:n] == q[:n]
@@ -89,7 +104,7 @@ def _stage(draw, cur):
         if kind in ('append', 'extend'):
             mode = draw(st.sampled_from(['list'] * 5 + ['missing', 'nonlist', 'nonlist']))
             inlist_ok = draw(st.integers(0, 5)) == 0       # targets addressed through a list index: open finding, kept as a small class
-            cand = [p for p in paths if isinstance(_get(cur, p), list) and (inlist_ok or all(isinstance(x, str) for x in p))] if mode == 'list' else \
+            cand = [p for p in paths if isinstance(_get(cur, p), list) and (inlist_ok or not through_list(cur, p))] if mode == 'list' else \
                 [p for p in paths if not isinstance(_get(cur, p), list)] if mode == 'nonlist' else []
             if cand:
                 p = cand[draw(st.integers(0, len(cand) - 1))]
@@ -104,7 +119,7 @@ def _stage(draw, cur):
             val = draw(LEAF) if scalar else [draw(LEAF) for _ in range(draw(st.integers(0, 3)))]
             if scalar and val is None:
                 val = 7
-            ops.append({'op': kind, 'path': list(p), 'val': val})
+            ops.append({'op': kind, 'path': list(p), 'val': val, 'inlist': through_list(cur, p)})
             used.append(p)
         else:
             missing = draw(st.integers(0, 5)) == 0
@@ -113,25 +128,29 @@ def _stage(draw, cur):
             else:
                 src = paths[draw(st.integers(0, len(paths) - 1))]
             dmode = draw(st.sampled_from(['fresh', 'fresh', 'scalar']))
-            cand = [p for p in paths if not isinstance(_get(cur, p), (dict, list)) and all(isinstance(c, str) for c in p)] if dmode == 'scalar' else []
+            cand = [p for p in paths if not isinstance(_get(cur, p), (dict, list)) and not through_list(cur, p)] if dmode == 'scalar' else []
             if cand:
                 dst = cand[draw(st.integers(0, len(cand) - 1))]
             else:
-                parents = [()] + [q for q in paths if isinstance(_get(cur, q), dict) and all(isinstance(c, str) for c in q)]
+                parents = [()] + [q for q in paths if isinstance(_get(cur, q), dict) and not through_list(cur, q)]
                 par = parents[draw(st.integers(0, len(parents) - 1))]
                 dst = par + ('q%d' % len(ops),)
             # removing an element renumbers its siblings: no other operator of the stage may address that list
-            src_zone = src[:-1] if src and isinstance(src[-1], int) else src
+            src_zone = src[:-1] if len(src) >= 1 and src != ('nope',) and isinstance(_get(cur, src[:-1]), list) else src
             if any(_related(src_zone, u) or _related(dst, u) for u in used) or _related(src_zone, dst):
                 continue
-            ops.append({'op': 'prev', 'path': list(dst), 'src': list(src)})
+            ops.append({'op': 'prev', 'path': list(dst), 'src': list(src), 'inlist': src != ('nope',) and through_list(cur, src)})
             used += [src_zone, dst]
     # sibling content: plain overrides at unrelated top-level keys
     sib = {}
     for k in draw(st.lists(st.sampled_from(KEYS + ['n1', 'n2']), max_size=2, unique=True)):
         if not any(u[0] == k for u in used):
             sib[k] = draw(st.one_of(LEAF, st.lists(LEAF, max_size=2)))
-    return {'ops': ops, 'sib': sib}
+    return {'ops': ops, 'sib': [[k, v] for k, v in sib.items()]}     # (a list of pairs: json cannot hold integer keys)
+
+
+def _sib(stage):
+    return list(stage['sib'].items()) if isinstance(stage['sib'], dict) else stage['sib']      # (older replay files hold a dict)
 
 
 def apply_model(cur, stage):
@@ -181,7 +200,7 @@ def apply_model(cur, stage):
                 raise PremergeFail(f'!prev {path_str(src)}: missing')
             remove(src)
             put(path, old)
-    for k, v in stage['sib'].items():
+    for k, v in _sib(stage):
         newer[k] = v
     return upd(cur, newer)
 
@@ -213,7 +232,7 @@ def stage_ast(stage):
             put(op['path'], body)
         else:
             put(op['path'], tdoc.raw(path_str(op['src']), '!prev'))
-    for k, v in stage['sib'].items():
+    for k, v in _sib(stage):
         n = tdoc.from_plain(v)
         if n['t'] == 'seq':
             n['flow'] = True
@@ -233,15 +252,20 @@ def _case(draw):
             cur = apply_model(cur, s)
         except (PremergeFail, Invalid, KeyError, IndexError, TypeError):
             break
-    return {'base': base, 'stages': stages}
+    return {'base': tdoc.from_plain(base), 'stages': stages}        # (the base as a document AST: json cannot hold integer keys)
 
 
 def strategy():
     return _case()
 
 
+def _base(case):
+    b = case['base']
+    return tdoc.plain(b) if isinstance(b, dict) and b.get('t') == 'map' and 'items' in b else b      # (older replay files hold the plain dict)
+
+
 def _in_list_target(op, cur):
-    return op['op'] in ('append', 'extend') and any(isinstance(c, int) for c in op['path'])
+    return op['op'] in ('append', 'extend') and op.get('inlist', any(isinstance(c, int) for c in op['path']))
 
 
 def run_case(case):
@@ -262,7 +286,7 @@ def run_case(case):
 
 
 def _run_case(case):
-    base, stages = case['base'], case['stages']
+    base, stages = _base(case), case['stages']
     texts = [tdoc.render(tdoc.from_plain(base))] + [tdoc.render(stage_ast(s)) for s in stages]
     labels = {f'stages={len(stages)}'}
     nops = sum(len(s['ops']) for s in stages)
@@ -275,9 +299,12 @@ def _run_case(case):
             if len(op['path']) >= 2:
                 nontrivial = True
                 labels.add('depth>=1')
-            if any(isinstance(c, int) for c in op.get('src', [])) or any(isinstance(c, int) for c in op['path']):
+            if op.get('inlist', any(isinstance(c, int) for c in op.get('src', [])) or any(isinstance(c, int) for c in op['path'])):
                 nontrivial = True
                 labels.add('into-list')
+            elif any(isinstance(c, int) for c in op['path']) or any(isinstance(c, int) for c in op.get('src', [])):
+                nontrivial = True
+                labels.add('path-through-integer-mapping-key')
         if fail is None:
             try:
                 expected = apply_model(expected, s)
@@ -308,4 +335,4 @@ def _run_case(case):
 
 
 def sample_repr(case):
-    return [tdoc.render(tdoc.from_plain(case['base']))] + [tdoc.render(stage_ast(s)) for s in case['stages']]
+    return [tdoc.render(tdoc.from_plain(_base(case)))] + [tdoc.render(stage_ast(s)) for s in case['stages']]
